@@ -6,6 +6,7 @@ import (
 	"fmt"
 	"net"
 	"sort"
+	"strconv"
 	"strings"
 
 	"github.com/facebookincubator/dns/dnsrocks/dnsdata"
@@ -394,6 +395,19 @@ func c09gen(g *gen, tier string, w *bufio.Writer) {
 			base := g.intn(200)
 			for k := 0; k < n; k++ {
 				file = append(file, fmt.Sprintf("%%%s,10.%d.%d.0/24,big", g.pick([]string{"aa", "bb", "cc", "\\000\\001"}), base+k/128, (2*k)%256))
+			}
+			g.shuffle(file)
+		}
+		if i%6 == 1 {
+			// lines whose last field is significant and ends in white space (optional tail omitted):
+			// the compiler trims leading blanks only, so must the preprocessor
+			for k, n := 0, 1+g.intn(3); k < n; k++ {
+				ws := g.pick([]string{" ", "  ", "\t", " \t", "\v", "\f", "\u00a0", "\u3000"})
+				if g.bool() {
+					file = append(file, "'ws"+strconv.Itoa(k)+".ex.com,text "+strconv.Itoa(k)+ws)
+				} else {
+					file = append(file, "Cws"+strconv.Itoa(k)+".ex.com,target.ex.com"+ws)
+				}
 			}
 			g.shuffle(file)
 		}
